@@ -133,7 +133,7 @@ impl<C: Autocomplete + Help> SessModel<C> {
         }
     }
 
-    fn check(&self, before: &Snap, bterm: &Term, e: &Ev, calls: &[CallObs], stats: &mut Stats) -> Vec<Viol> {
+    fn check(&self, before: &Snap, bterm: &Term, bpend: u8, e: &Ev, calls: &[CallObs], stats: &mut Stats) -> Vec<Viol> {
         let _ = bterm.lfs;
         let p = self.cfg.prop;
         let mon = &self.cfg.mon;
@@ -248,10 +248,19 @@ impl<C: Autocomplete + Help> SessModel<C> {
         if mon.dispatch {
             // a terminator that completes a CR LF / LF CR pair is not an Enter (pairing itself is C04's)
             let paired = match e {
-                Ev::Key(Key::Lf, _) => before.dec.1 == b'\r',
-                Ev::Key(Key::Cr, _) => before.dec.1 == b'\n',
+                Ev::Key(Key::Lf, _) => bpend == b'\r',
+                Ev::Key(Key::Cr, _) => bpend == b'\n',
                 _ => false,
             };
+            if paired {
+                stats.hit("dispatch_paired_terminator");
+                if !handler_calls.is_empty() || after.text != before.text {
+                    v.push(Viol::new(
+                        format!("{}/second-half-of-terminator-pair-acted", p),
+                        format!("{} completing a CR LF / LF CR pair on line {:?}: handler {:?}, line now {:?}", e.render(), btext, handler_calls, after.text),
+                    ));
+                }
+            }
             match e {
                 Ev::Key(k, hmode) if k.is_enter() && !paired => {
                     stats.hit("dispatch_enter");
@@ -441,8 +450,8 @@ impl<C: Autocomplete + Help> SessModel<C> {
                 match e {
                     Ev::Key(k, _)
                         if k.is_enter()
-                            && !(matches!(k, Key::Lf) && before.dec.1 == b'\r')
-                            && !(matches!(k, Key::Cr) && before.dec.1 == b'\n') =>
+                            && !(matches!(k, Key::Lf) && bpend == b'\r')
+                            && !(matches!(k, Key::Cr) && bpend == b'\n') =>
                     {
                         stats.hit("history_submit");
                         let (want, recorded) = hist_push(&eb, &btext, self.cfg.hb);
@@ -689,7 +698,7 @@ impl<C: Autocomplete + Help> Model for SessModel<C> {
     fn step(&self, s: &Sess, e: &Ev, stats: &mut Stats) -> StepOut<Sess> {
         let before = snap(&s.cli);
         let (n, calls) = apply::<C>(s, e);
-        let mut viols = self.check(&before, &s.term, e, &calls, stats);
+        let mut viols = self.check(&before, &s.term, s.pend, e, &calls, stats);
         stats.hit(match ev_class(e) {
             "char" => "ev_char",
             "backspace" => "ev_backspace",
@@ -711,7 +720,7 @@ impl<C: Autocomplete + Help> Model for SessModel<C> {
                 poison(&mut ps, pb);
                 let (pn, pcalls) = apply::<C>(&ps, e);
                 stats.hit("poison_runs");
-                let pv = self.check(&before, &s.term, e, &pcalls, &mut Stats::default());
+                let pv = self.check(&before, &s.term, s.pend, e, &pcalls, &mut Stats::default());
                 if !pv.is_empty() {
                     // a property violation that shows only with different garbage
                     for mut x in pv {
